@@ -23,7 +23,7 @@ from vlib.proto import C, T, is_c, is_t, show, subterms
 from vlib.front import unparse, dotted, const_value, AnchorMissing
 
 M = 'phylib/utils/event.py'
-FLOOR = 10
+FLOOR = 7
 EXPLANATION = ('proto engine: the methods of EventEmitter are walked over an abstract registry of 0..2 symbolic '
                'entries (all outcomes of every test are explored, facts recorded per path); the observed callback-call '
                'sequence, arguments and return value are compared with the specification evaluated on the same facts, '
